@@ -10,7 +10,8 @@
    PROP  = the outcome violates the property's own predicate (spec_allowed with the hand-written
            relation table; "ListStores returns only stores the caller may get"; a denied call
            touched the target store's data);
-   KNOWN list_stores_empty_grant   = PROP on ListStores with the model's trigger flag set (F9);
+   (F9, list_stores_empty_grant, was repaired by c075cf0: a store returned to a caller who may
+   not get it is a PROP in every situation, the empty accessible list included);
    KNOWN model_read_before_authz   = a call that the model denies observed something of the
            store's model (datastore read / model-id header / pre-authorization error), for a
            handler that carries the regenerated table's trigger flag. *)
@@ -24,7 +25,7 @@ let base_handler (h : string) : string =
   match String.index_opt h '#' with Some i -> String.sub h 0 i | None -> h
 
 type verdicts = { mutable prop : string list; mutable diff : string list;
-                  mutable known_f9 : string list; mutable known_model : string list }
+                  mutable known_model : string list }
 
 let decode_common claims_state client stores grants la =
   let cl = if as_int claims_state = 0 then NoClaims else Claims (cb client) in
@@ -58,16 +59,15 @@ let decode_common claims_state client stores grants la =
 
 let finish (v : verdicts) : string =
   let n l = List.length l in
-  match v.prop, v.diff, v.known_f9, v.known_model with
-  | p :: _, _, _, _ -> Printf.sprintf "PROP %s (%d such)" p (n v.prop)
-  | [], d :: _, _, _ -> Printf.sprintf "DIFF %s (%d such)" d (n v.diff)
-  | [], [], k :: _, _ -> Printf.sprintf "KNOWN list_stores_empty_grant %s (%d such)" k (n v.known_f9)
-  | [], [], [], k :: _ -> Printf.sprintf "KNOWN model_read_before_authz %s (%d such)" k (n v.known_model)
-  | [], [], [], [] -> "OK"
+  match v.prop, v.diff, v.known_model with
+  | p :: _, _, _ -> Printf.sprintf "PROP %s (%d such)" p (n v.prop)
+  | [], d :: _, _ -> Printf.sprintf "DIFF %s (%d such)" d (n v.diff)
+  | [], [], k :: _ -> Printf.sprintf "KNOWN model_read_before_authz %s (%d such)" k (n v.known_model)
+  | [], [], [] -> "OK"
 
 let calls_record claims_state client stores grants la calls =
   let (cl, _all, g, _la) = decode_common claims_state client stores grants la in
-  let v = { prop = []; diff = []; known_f9 = []; known_model = [] } in
+  let v = { prop = []; diff = []; known_model = [] } in
   List.iter (fun c ->
     match as_list c with
     | [handler; meth; store; lookups; cls; code; touched; headers; has_model] ->
@@ -134,7 +134,7 @@ let subset a b = List.for_all (fun x -> List.mem x b) a
 
 let lists_record claims_state client stores grants la lists create backend =
   let (cl, all, g, la) = decode_common claims_state client stores grants la in
-  let v = { prop = []; diff = []; known_f9 = []; known_model = [] } in
+  let v = { prop = []; diff = []; known_model = [] } in
   let get_m = match method_of_bytes (bytes_to_coq "GetStore") with Some m -> m | None -> raise (Missing "GetStore") in
   let list_m = match method_of_bytes (bytes_to_coq "ListStores") with Some m -> m | None -> raise (Missing "ListStores") in
   let create_m = match method_of_bytes (bytes_to_coq "CreateStore") with Some m -> m | None -> raise (Missing "CreateStore") in
@@ -167,12 +167,10 @@ let lists_record claims_state client stores grants la lists create backend =
         v.prop <- (Printf.sprintf "ListStores returned a store the caller cannot get: %s returned %s; not in the caller's accessible set [%s]: [%s] (backend saw IDs: %s)"
                      where (show o) (String.concat " " (match acc with Some a -> a | None -> []))
                      (String.concat " " outside_acc) seen) :: v.prop
-      else if not_gettable <> [] then begin
-        let txt = Printf.sprintf "%s returned %s; the caller may not get [%s] (backend saw IDs: %s)" where (show o)
-            (String.concat " " not_gettable) seen in
-        if m = o && tr_list_stores_empty_grant g la cl then v.known_f9 <- txt :: v.known_f9
-        else v.prop <- txt :: v.prop
-      end
+      else if not_gettable <> [] then
+        v.prop <- (Printf.sprintf "ListStores returned a store the caller cannot get: %s returned %s; the caller may not get [%s] (accessible set [%s]; backend saw IDs: %s)"
+                     where (show o) (String.concat " " not_gettable)
+                     (String.concat " " (match acc with Some a -> a | None -> [])) seen) :: v.prop
       else if m <> o then
         v.diff <- (Printf.sprintf "%s: model %s, implementation %s" where (show m) (show o)) :: v.diff
     | _ -> v.diff <- "malformed list entry" :: v.diff) (as_list lists);
@@ -184,7 +182,7 @@ let lists_record claims_state client stores grants la lists create backend =
     let txt = Printf.sprintf "CreateStore: model %s, implementation class %d" (if cm then "allows" else "denies") ccls in
     if cs <> cpassed then v.prop <- txt :: v.prop else v.diff <- txt :: v.diff
   end;
-  v.prop <- List.rev v.prop; v.diff <- List.rev v.diff; v.known_f9 <- List.rev v.known_f9;
+  v.prop <- List.rev v.prop; v.diff <- List.rev v.diff;
   finish v
 
 let f _id vs =
